@@ -137,7 +137,8 @@ tcptran_pipe_fini(void *arg)
 {
 	tcptran_pipe *p = arg;
 
-	tcptran_pipe_stop(p);
+	// (The pipe was stopped by the reaper before its last reference
+	// could go; the endpoint may be gone by now, so do not touch it.)
 	nng_stream_free(p->conn);
 	nni_aio_fini(&p->rxaio);
 	nni_aio_fini(&p->txaio);
